@@ -76,6 +76,9 @@ Variants(S, z, lo) ==
   \o << [g |-> "subsite", S |-> S, z |-> z, lo |-> lo] >>
   \* the same site below a root that is not targeted itself:  Town (a community) -> { Site -> {Z1, Z2, ...} }  (seed C13e)
   \o << [g |-> "community", S |-> S, z |-> z, lo |-> lo] >>
+  \* the same problem with unit-operation zones targeted as well (option DO_DIRECT_OPERATION_TARGETING): the site and
+  \* process-zone records must not change (seed C09e)
+  \o << [g |-> "ops", S |-> S, z |-> z, lo |-> lo] >>
   \o << [g |-> "translate", S |-> S, z |-> z, lo |-> lo] >>
   \o << [g |-> "scale", S |-> S, z |-> z, lo |-> lo] >>
   \o (IF lo = 0 THEN << [g |-> "mirror", S |-> Mirror(S), z |-> z, lo |-> lo] >> ELSE <<>>)
